@@ -101,14 +101,20 @@ def resolved_moments(draw, N):
             ratio = math.exp(draw(fl(math.log(1.5), math.log(hi))))
         minr = min(minr, ratio)
         lobes.append((draw(fl(0.2, 1.0)), draw(fl(-math.pi, math.pi)), GM.kappa_for_spread(ratio * step)))
-    bg = draw(st.sampled_from([0.0, 0.0, 0.05, 0.3]))
+    if nl == 2 and draw(st.integers(0, 2)) == 0:
+        # a narrow dominant lobe with a weak secondary one (the shape on which Newton's line search rejects steps)
+        lobes[0] = (1.0, lobes[0][1], GM.kappa_for_spread(draw(fl(1.5, 3.0)) * step))
+        lobes[1] = (draw(fl(0.05, 0.3)), lobes[1][1],
+                    GM.kappa_for_spread(draw(fl(1.5, 3.0)) * step) if draw(st.booleans()) else lobes[1][2])
+        minr = min(minr, 1.5)
+    bg = draw(st.sampled_from([0.0, 0.0, 0.01, 0.05, 0.3]))
     return {"m": GM.mixture_moments(lobes, bg), "min_ratio": minr, "lobes": nl}
 
 
 # ----------------------------------------------------------------------------- fidelity
 @st.composite
 def fidelity_case(draw):
-    N = draw(st.sampled_from(NS))
+    N = draw(st.sampled_from(NS + [144, 72]))      # the finer grids (more iterations, tighter lobes) twice as often
     # optionally an earlier call of the same estimator with non-default (looser) optional solver settings
     prior = draw(st.sampled_from([None, None, None, {"atol": 0.25, "max_iter": 5}, {"max_iter": 2}, {"atol": 0.1},
                                   {"max_line_search_depth": 1, "rcond": 1e-2}]))
@@ -315,7 +321,7 @@ def run_jac(c):
 
 
 SUBCHECKS = [
-    SubCheck("moment_fidelity", lambda tier: fidelity_case(), run_fidelity, {"quick": 200, "thorough": 2000}),
+    SubCheck("moment_fidelity", lambda tier: fidelity_case(), run_fidelity, {"quick": 500, "thorough": 3000}),
     SubCheck("equivariance", lambda tier: equiv_case(), run_equiv, {"quick": 220, "thorough": 2500},
              fixed=fixed_equiv),
     SubCheck("jacobian", lambda tier: jac_case(), run_jac, {"quick": 300, "thorough": 2500}),
